@@ -655,9 +655,12 @@ Proof.
   unfold ranges in Hz. apply in_map_iff in Hz. destruct Hz as [e [Ee He]].
   pose proof (scheduled_not_ignored text text_eqb text_cmp (ignore_lines src) items e He) as Hni.
   rewrite Ee in Hni. unfold ignored in Hni.
-  rewrite existsb_false_iff in Hni. specialize (Hni l Hl). unfold overlaps in Hni.
+  rewrite existsb_false_iff in Hni. specialize (Hni l Hl). unfold touches_line, overlaps in Hni.
   unfold nkey, nat_range in Ez. inversion Ez as [[E1 E2]].
-  apply andb_false_iff in Hni. destruct Hni as [Hni|Hni]; apply Z.ltb_ge in Hni; lia.
+  destruct (fst rz =? snd rz)%Z eqn:Eq.
+  - apply Z.eqb_eq in Eq. apply andb_false_iff in Hni.
+    destruct Hni as [Hni|Hni]; [apply Z.leb_gt in Hni | apply Z.ltb_ge in Hni]; lia.
+  - apply andb_false_iff in Hni. destruct Hni as [Hni|Hni]; apply Z.ltb_ge in Hni; lia.
 Qed.
 
 End TextProofs.
